@@ -322,8 +322,8 @@ func TestVerifC31Flushable(t *testing.T) {
 		"a sequence number, and which of the two production paths assigns it (before newFlushableBatch as in WAL replay / setSeqNum afterwards as in commit); " +
 		"distinct by (comparer, path, #points, #rangedels, #rangekeys, repr hash); non-trivial if the batch holds at least 2 entries. " +
 		"malformed case = mutated valid repr through newFlushableBatch and memTable.apply; distinct by content hash")
-	nDiff := vcommon.Scale(210, 8400)
-	nMal := vcommon.Scale(45, 1800)
+	nDiff := vcommon.Scale(210, 5000)
+	nMal := vcommon.Scale(45, 1000)
 	seen := map[string]int{}
 	r.Cases(nDiff+nMal, func(i int, rng *rand.Rand) {
 		defer func() {
